@@ -36,6 +36,73 @@ Proof. pose proof (denote_scaled_close 6 q) as H. vm_compute in H. exact H. Qed.
 Theorem sof_u_precision q : Qabs (denote 5 (scaled 5 q) - q) <= 1 # 200000.
 Proof. pose proof (denote_scaled_close 5 q) as H. vm_compute in H. exact H. Qed.
 
+(* ---- the kind of atom line: fixed point and loss bound *)
+Lemma scaled_of_denote k n : scaled k (denote k n) = n.
+Proof.
+  pose proof (pow10Z_pos k) as P. assert (PQ : 0 < inject_Z (pow10Z k)) by (rewrite <- (Zlt_Qlt 0); exact P).
+  unfold scaled, denote.
+  assert (E : inject_Z n / inject_Z (pow10Z k) * inject_Z (pow10Z k) == inject_Z n) by (field; lra).
+  rewrite (Qfloor_comp _ _ E). rewrite Qfloor_Z.
+  assert (R : inject_Z n / inject_Z (pow10Z k) * inject_Z (pow10Z k) - inject_Z n == 0) by (rewrite E; ring).
+  rewrite (Qcompare_comp _ _ R _ _ (Qeq_refl (1 # 2))). reflexivity.
+Qed.
+
+Lemma scaled_zero_small q : scaled 5 q = 0%Z -> Qabs q <= 1 # 200000.
+Proof.
+  intros H. pose proof (sof_u_precision q) as P. rewrite H in P.
+  assert (E : denote 5 0 - q == - q) by (unfold denote; field; vm_compute; discriminate).
+  rewrite E in P. rewrite Qabs_opp in P. exact P.
+Qed.
+
+Lemma scaled_0 : scaled 5 0 = 0%Z.
+Proof. reflexivity. Qed.
+
+Ltac six u := destruct u as [|? [|? [|? [|? [|? [|? [|? ?]]]]]]]; try discriminate.
+
+Theorem u_fixed_point u : length u = 6%nat -> u_written (u_read (u_written u)) = u_written u.
+Proof.
+  intros L. six u. clear L. unfold u_written at 2 3. destruct (aniso_line [q; q0; q1; q2; q3; q4]) eqn:A.
+  - unfold u_read. cbn [map length Nat.sub repeat app]. unfold u_written, aniso_line in *. cbn [skipn existsb map firstn] in *.
+    rewrite !scaled_of_denote. rewrite A. reflexivity.
+  - unfold u_read. cbn [firstn map length Nat.sub repeat app]. unfold u_written, aniso_line. cbn [skipn existsb map firstn].
+    rewrite scaled_of_denote. reflexivity.
+Qed.
+
+(* what is read back agrees with what was stored to half a unit of the fifth decimal - for an atom written as isotropic this
+   includes U22 only if U22 itself is written as 0.00000 (see u_flat_refuted) *)
+Theorem u_lossless u i : length u = 6%nat -> (aniso_line u = false -> scaled 5 (nth 1 u 0) = 0%Z) -> (i < 6)%nat ->
+  Qabs (nth i (u_read (u_written u)) 0 - nth i u 0) <= 1 # 200000.
+Proof.
+  intros L F I. six u. clear L. unfold u_written. destruct (aniso_line [q; q0; q1; q2; q3; q4]) eqn:A.
+  - unfold u_read. cbn [map length Nat.sub repeat app].
+    do 6 (destruct i as [|i]; [cbn [nth]; apply sof_u_precision|]). lia.
+  - specialize (F eq_refl). cbn [nth] in F. unfold aniso_line in A. cbn [skipn existsb] in A.
+    repeat match type of A with (_ || _)%bool = false => apply Bool.orb_false_iff in A; let A1 := fresh "Z" in destruct A as [A1 A] end.
+    repeat match goal with H : negb (Z.eqb _ 0) = false |- _ => apply Bool.negb_false_iff in H; apply Z.eqb_eq in H; apply scaled_zero_small in H end.
+    apply scaled_zero_small in F.
+    unfold u_read. cbn [firstn map length Nat.sub repeat app].
+    destruct i as [|i]; [cbn [nth]; apply sof_u_precision|].
+    assert (N : forall x, Qabs x <= 1 # 200000 -> Qabs (0 - x) <= 1 # 200000).
+    { intros x Hx. assert (E : 0 - x == - x) by ring. rewrite E, Qabs_opp. exact Hx. }
+    do 5 (destruct i as [|i]; [cbn [nth]; apply N; assumption|]). lia.
+Qed.
+
+(* the degenerate case that stays: U33 = U23 = U13 = U12 = 0.00000 with a U22 that is not - a flat ellipsoid - is written with U11 only *)
+Theorem u_flat_refuted : exists u, length u = 6%nat /\ aniso_line u = false /\
+  Qabs (nth 1 (u_read (u_written u)) 0 - nth 1 u 0) == 1 # 25.
+Proof. exists [1 # 20; 1 # 25; 0; 0; 0; 0]. vm_compute. repeat split. Qed.
+
+(* the threshold before 6588dd5 lost a value that the format can hold *)
+Theorem old_threshold_refuted : exists u, length u = 6%nat /\ aniso_line_old u = false /\ aniso_line u = true /\ scaled 5 (nth 1 u 0) = 0%Z /\
+  ~ Qabs (0 - nth 3 u 0) <= 1 # 200000.
+Proof. exists [1 # 20; 2 # 1000000; 0; 12 # 1000000; 0; 0]. vm_compute. repeat split; try reflexivity. intros H. apply H. reflexivity. Qed.
+
+Example u_written_examples :
+  u_written [1 # 20; 4 # 1000000; 4 # 1000000; 4 # 1000000; 4 # 1000000; 4 # 1000000] = [5000%Z]
+  /\ u_written [1 # 20; 1 # 25; 3 # 100; 0; -12 # 1000000; 0] = [5000; 4000; 3000; 0; -1; 0]%Z
+  /\ Forall2 Qeq (u_read [5000%Z]) [1 # 20; 0; 0; 0; 0; 0].
+Proof. repeat split; try (vm_compute; reflexivity). repeat constructor. Qed.
+
 (* the short form of WGHT denotes the same six values *)
 Theorem wght_written_denotes v : length v = 6%nat ->
   Forall2 Qeq (pad_defaults wght_defaults (wght_written v)) v.
